@@ -86,7 +86,7 @@ class Ctx:
             return False
         key = cond.get_id()
         if key in self._known:
-            return self._known[key]
+            return self._known[key][0]
         k = len(self.decisions)
         if k < len(self.prefix):
             val = self.prefix[k]
@@ -104,8 +104,10 @@ class Ctx:
                 raise Infeasible()
         self.decisions.append(val)
         self.pc.append(cond if val else z3.Not(cond))
-        self._known[key] = val
-        self._known[z3.simplify(z3.Not(cond)).get_id()] = not val
+        ncond = z3.simplify(z3.Not(cond))
+        # keep the terms alive: z3 AST ids are reused after garbage collection
+        self._known[key] = (val, cond)
+        self._known[ncond.get_id()] = (not val, ncond)
         return val
 
 
@@ -282,6 +284,7 @@ class SymReal:
         r = c.fresh("sqrt")
         c.assume(r >= 0)
         c.assume(r * r == self.t)
+        c.events.append(("sqrt", self.t, r))
         return SymReal(r)
 
     def cos(self):
@@ -348,7 +351,30 @@ def sym_div(a, b):
     c.oblige("div-nonzero", bt != 0)
     q = c.fresh("quot")
     c.assume(q * bt == at)
+    c.events.append(("div", at, bt, q))
     return SymReal(q)
+
+
+def find_sqrt(c: "Ctx", target, hyps=None):
+    """The fresh variable r introduced by the run for sqrt(arg) with arg == target
+    (syntactically after simplification, or provably under hyps)."""
+    for ev in c.events:
+        if ev[0] != "sqrt":
+            continue
+        if z3.is_true(z3.simplify(ev[1] == target)) or z3.simplify(ev[1] - target).eq(z3.RealVal(0)):
+            return ev[2]
+    if hyps is not None:
+        for ev in c.events:
+            if ev[0] != "sqrt":
+                continue
+            s_ = z3.Solver()
+            s_.set("timeout", 3000)
+            for h in hyps:
+                s_.add(h)
+            s_.add(ev[1] != target)
+            if s_.check() == z3.unsat:
+                return ev[2]
+    return None
 
 
 # --------------------------------------------------------------------------
